@@ -46,6 +46,13 @@ STMT_WRAPS = ["if True:\n    BODY", "if False:\n    BODY", "while False:\n    BO
               "try:\n    BODY\nfinally:\n    pass", "if qq_undefined:\n    BODY"]
 
 STMT_SNIPPETS = [
+    "cnd_ = 1 > 0\nif cnd_:\n    alpha = 1\n    beta = 2\nelse:\n    alpha = 1.5\n    beta = True\ngam_ = alpha\ndel_ = beta",
+    "cnd_ = 1 > 0\nif cnd_:\n    zeta = 1\n    eta = 2\n    theta = 3\nelse:\n    zeta = True\n    eta = 2.5\n    theta = (1, 2)\nr1_ = (zeta, eta, theta)",
+    "cnd_ = 1 > 0\nif cnd_:\n    kappa = 1\nelse:\n    lam = 2\nr2_ = kappa\nr3_ = lam",
+    "cnd_ = 1 > 0\nmu = 1\nnu = 2\nwhile cnd_:\n    mu = 1.5\n    nu = True\n    cnd_ = False\nr4_ = mu\nr5_ = nu",
+    "cnd_ = 1 > 0\nif cnd_:\n    qa_ = qubit()\n    qb_ = qubit()\nr6_ = 1",
+    "qa_ = qubit()\nqb_ = qubit()\nqc_ = qubit()",
+    "qa_ = qubit()\nqb_ = qubit()\ndiscard(qa_)\ndiscard(qb_)\nh(qa_)\nh(qb_)",
     "xs_ = array(1, 2)\nxs_[0 if True else 1] = 1",
     "xs_ = array(1, 2)\nxs_[0 if xs_[0] > 0 else 1] += 1",
     "xs_ = array(1, 2)\nxs_[(w_ := 0)] = 1",
